@@ -78,8 +78,9 @@ func TestWorker(t *testing.T) {
 		t.Fatal(err)
 	}
 	tail := racelog.Open()
+	kinds := job.KindList(Kinds)
 	mk := func(i int) (*Case, *choice.Source, *choice.Source) {
-		c := &Case{Property: "C13", Engine: "simsched", Kind: Kinds[i%len(Kinds)]}
+		c := &Case{Property: "C13", Engine: "simsched", Kind: kinds[i%len(kinds)]}
 		return c, choice.New(job.Seed, fmt.Sprint("c13-work-", i)), choice.New(job.Seed, fmt.Sprint("c13-sched-", i))
 	}
 	out.Watch(120 * time.Second)
